@@ -11,8 +11,11 @@ dtype.  `meta_clauses` is the Python mirror of ArrayMeta!MetaClauses, used where
 in Python (TLC-enumerated cases); drivers cross-check it against TLC."""
 from __future__ import annotations
 
+import contextlib
+import inspect
 import itertools
 import math
+import textwrap
 
 import numpy as np
 
@@ -200,3 +203,27 @@ def _reassembles(obs, nd, nb, check_codes):
         if not np.array_equal(W[sl], np.array(b["c"], dtype=np.int64).reshape(b["s"])):
             return False
     return True
+
+
+# ---------------------------------------------------------------- in-memory mutants (self-tests)
+@contextlib.contextmanager
+def source_mutant(module, funcname, old, new, count=1, also=()):
+    """Recompile module.funcname with `old` replaced by `new` (which must occur `count` times) inside
+    this process only - /repo is never written - and restore the original on exit.  `also`: other
+    modules that re-export the function under the same name (e.g. dask.array)."""
+    orig = getattr(module, funcname)
+    src = textwrap.dedent(inspect.getsource(orig))
+    if src.count(old) != count:
+        raise RuntimeError("mutant anchor %r occurs %d times in %s.%s (expected %d)"
+                           % (old, src.count(old), module.__name__, funcname, count))
+    ns = module.__dict__
+    exec(compile(src.replace(old, new), "<mutant %s.%s>" % (module.__name__, funcname), "exec"), ns)
+    saved = [(m, getattr(m, funcname)) for m in also]
+    for m in also:
+        setattr(m, funcname, ns[funcname])
+    try:
+        yield ns[funcname]
+    finally:
+        setattr(module, funcname, orig)
+        for m, o in saved:
+            setattr(m, funcname, o)
